@@ -260,4 +260,109 @@ def runHist (t : T) : List Attrs → List Op → List Res
       | .error e => .err e :: runHist t objs rest
       | .ok st => .ok st.score st.bychar :: runHist t (objs.set j st.attrs) rest
 
+/-! ### histories with matrix OBJECTS that are edited in place
+
+A matrix object is its column alphabets and its current rows of symbols; `parsimony_score(tree, chars, …)` reads the matrix through
+`taxon_state_sets_map`, i.e. `matrixOf` of the content the object has at the time of the call.  Edits keep the dimensions:
+`chars[taxon][idx] = state` / `seq.set_at(idx, state)` (one cell) and `chars[taxon] = <sequence of equal length>`. -/
+
+structure MatObj where
+  cols : List ColAlph
+  rows : List (Nat × List Char)
+
+def setCell (bit idx : Nat) (sym : Char) : List (Nat × List Char) → List (Nat × List Char)
+  | [] => []
+  | (b, cs) :: rest => if b == bit then (b, cs.set idx sym) :: rest else (b, cs) :: setCell bit idx sym rest
+
+def setRow (bit : Nat) (syms : List Char) : List (Nat × List Char) → List (Nat × List Char)
+  | [] => []
+  | (b, cs) :: rest => if b == bit then (b, syms) :: rest else (b, cs) :: setRow bit syms rest
+
+def rowOfBit (bit : Nat) : List (Nat × List Char) → Option (List Char)
+  | [] => none
+  | (b, cs) :: rest => if b == bit then some cs else rowOfBit bit rest
+
+/-- one cell: the taxon must have a row, the index must be inside it, the symbol must belong to the column's alphabet -/
+def MatObj.editCell (mo : MatObj) (bit idx : Nat) (sym : Char) : Option MatObj :=
+  match rowOfBit bit mo.rows, mo.cols[idx]? with
+  | some cs, some col =>
+    if idx < cs.length && (colSymbolSet col false sym).isSome then some { mo with rows := setCell bit idx sym mo.rows }
+    else none
+  | _, _ => none
+
+/-- a whole sequence, of the same length, every symbol in its column's alphabet -/
+def MatObj.editSeq (mo : MatObj) (bit : Nat) (syms : List Char) : Option MatObj :=
+  match rowOfBit bit mo.rows with
+  | some cs =>
+    if cs.length == syms.length && (rowOfCols mo.cols false syms).isSome then some { mo with rows := setRow bit syms mo.rows }
+    else none
+  | none => none
+
+inductive MOp where
+  | score (obj : Nat) (m : Matrix) (weights : Option (List Nat))        -- a matrix built for this call only
+  | clone (obj : Nat)
+  | defMat (k : Nat) (mo : MatObj)                                     -- create matrix object `k` (the next free index) or replace it
+  | editCell (k bit idx : Nat) (sym : Char)
+  | editSeq (k bit : Nat) (syms : List Char)
+  | scoreMat (obj k : Nat) (gapsAsMissing : Bool) (weights : Option (List Nat))
+
+inductive MRes where
+  | ok (score : Nat) (bychar : List Nat)
+  | err (e : Err)
+  | cloned
+  | badObj
+  | matOk       -- a matrix object was created or edited
+  | badMat      -- no such matrix object / an edit the object refuses / content that is no matrix
+
+/-- the matrix objects after one op, and whether the op was accepted (`none` for ops that do not touch matrices) -/
+def stepMats (mats : List MatObj) : MOp → List MatObj × Option Bool
+  | .defMat k mo =>
+    if k < mats.length then (mats.set k mo, some true)
+    else if k == mats.length then (mats ++ [mo], some true) else (mats, some false)
+  | .editCell k bit idx sym =>
+    match mats[k]? with
+    | none => (mats, some false)
+    | some mo => match mo.editCell bit idx sym with
+      | none => (mats, some false)
+      | some mo' => (mats.set k mo', some true)
+  | .editSeq k bit syms =>
+    match mats[k]? with
+    | none => (mats, some false)
+    | some mo => match mo.editSeq bit syms with
+      | none => (mats, some false)
+      | some mo' => (mats.set k mo', some true)
+  | _ => (mats, none)
+
+/-- the matrix a scoring op passes to `parsimony_score`: built for the call, or the CURRENT content of a matrix object -/
+def callMatrix (mats : List MatObj) : MOp → Option (Nat × Matrix × Option (List Nat))
+  | .score j m w => some (j, m, w)
+  | .scoreMat j k g w =>
+    match mats[k]? with
+    | none => none
+    | some mo => match matrixOf mo.cols g mo.rows with
+      | none => none
+      | some m => some (j, m, w)
+  | _ => none
+
+def runMHist (t : T) : List Attrs → List MatObj → List MOp → List MRes
+  | _, _, [] => []
+  | objs, mats, op :: rest =>
+    match op with
+    | .clone j =>
+      match objs[j]? with
+      | none => .badObj :: runMHist t objs mats rest
+      | some a => .cloned :: runMHist t (objs ++ [a]) mats rest
+    | .defMat _ _ | .editCell _ _ _ _ | .editSeq _ _ _ =>
+      (if (stepMats mats op).2 == some true then MRes.matOk else MRes.badMat) :: runMHist t objs (stepMats mats op).1 rest
+    | .score _ _ _ | .scoreMat _ _ _ _ =>
+      match callMatrix mats op with
+      | none => .badMat :: runMHist t objs mats rest
+      | some (j, m, w) =>
+        match objs[j]? with
+        | none => .badObj :: runMHist t objs mats rest
+        | some a =>
+          match parsimony m w a t with
+          | .error e => .err e :: runMHist t objs mats rest
+          | .ok st => .ok st.score st.bychar :: runMHist t (objs.set j st.attrs) mats rest
+
 end DendroModel.C16
